@@ -132,6 +132,85 @@ func (in *ninst) runLeafClose() {
 	in.observe()
 }
 
+// runPublishStopFiltered: two events are distributed to filtered nodes while the root shuts down (a filtered node
+// may find its parent's event channel closed at any point of its handling of an event).
+func (in *ninst) runPublishStopFiltered() {
+	a := hx.Pod("ns", "a", "1", "l=1")
+	in.root = hx.NewRoot(filter.Null())
+	in.root.Init([]metav1.Object{a})
+	tree := []hx.Spec{{Kind: "fsub", Filter: 2}, {Kind: "fclone", Filter: 2, Children: []hx.Spec{{Kind: "sub"}}}}
+	in.nodes = hx.Build(in.root.Pub, tree, nil, "", func(*hx.Node) kcache.Handler { return nil })
+	hx.Walk(in.nodes, func(n *hx.Node) {
+		if n.Err != nil {
+			vs.Fail("build | %s: %v", n.Path, n.Err)
+			return
+		}
+		if r := n.Ready(); r != nil {
+			<-r
+		}
+		if n.IsLeaf() {
+			n := n
+			go n.Consume(false)
+		}
+	})
+	fin := make(chan bool, 4)
+	go func() {
+		in.root.Publish(kcache.NewEvent(kcache.EventTypeUpdate, hx.Pod("ns", "a", "2", "l=1")))
+		in.root.Publish(kcache.NewEvent(kcache.EventTypeCreate, hx.Pod("ns", "b", "3", "l=1")))
+		fin <- true
+	}()
+	go func() { in.root.Stop(); fin <- true }()
+	for i := 0; i < 2; i++ {
+		<-fin
+	}
+	in.refDone, in.stopDone = true, true
+	in.observe()
+}
+
+// runIdlePublisher: every subscriber of a clone and of a filtered clone leaves; later the clones are closed
+// themselves (own) or the root shuts down: a publisher without subscribers still follows its parent.
+func (in *ninst) runIdlePublisher(own bool) {
+	a := hx.Pod("ns", "a", "1", "l=1")
+	in.root = hx.NewRoot(filter.Null())
+	in.root.Init([]metav1.Object{a})
+	tree := []hx.Spec{{Kind: "clone", Children: []hx.Spec{{Kind: "sub"}}}, {Kind: "fclone", Filter: 2, Children: []hx.Spec{{Kind: "sub"}}}}
+	in.nodes = hx.Build(in.root.Pub, tree, nil, "", func(*hx.Node) kcache.Handler { return nil })
+	hx.Walk(in.nodes, func(n *hx.Node) {
+		if n.Err != nil {
+			vs.Fail("build | %s: %v", n.Path, n.Err)
+			return
+		}
+		if r := n.Ready(); r != nil {
+			<-r
+		}
+		if n.IsLeaf() {
+			n := n
+			go n.Consume(false)
+		}
+	})
+	in.root.Publish(kcache.NewEvent(kcache.EventTypeUpdate, hx.Pod("ns", "a", "2", "l=1")))
+	hx.Walk(in.nodes, func(n *hx.Node) {
+		if n.IsLeaf() {
+			n.Close()
+		}
+	})
+	vs.SleepIdle(1)
+	in.root.Publish(kcache.NewEvent(kcache.EventTypeUpdate, hx.Pod("ns", "a", "3", "l=1")))
+	vs.SleepIdle(1)
+	if own {
+		for _, n := range in.nodes {
+			n.Close()
+		}
+	} else {
+		in.root.Stop()
+	}
+	in.refDone, in.stopDone = true, true
+	in.observe()
+	if own {
+		in.root.Stop()
+	}
+}
+
 func (in *ninst) runStalledTyped() {
 	in.root = hx.NewRoot(filter.Null())
 	in.root.Init(nil)
@@ -257,7 +336,16 @@ func (in *ninst) check(r *vs.Result) []string {
 		if left := ctl.LibBlocked(r); len(left) > 0 {
 			add("C12", "goroutine leak", "library goroutines alive after the root's shutdown raced with Refilter calls: %v", left)
 		}
-	case "leaf-close-racing-publish-and-stop", "stalled-typed-subscriber-then-stop", "stalled-filtered-subscriber-then-stop", "stalled-filtered-subscriber-closes-itself":
+	case "idle-publisher-then-closed":
+		for p, d := range in.done {
+			if !d {
+				add("C11", "descendant not closed", "node %s was closed after all of its subscribers had left: it is not done at quiescence", p)
+			}
+		}
+		if left := ctl.LibBlocked(r); len(left) > 0 {
+			add("C12", "goroutine leak", "library goroutines alive after nodes without subscribers were closed: %v", left)
+		}
+	case "leaf-close-racing-publish-and-stop", "publish-racing-stop-with-filtered-nodes", "idle-publisher-then-stop", "stalled-typed-subscriber-then-stop", "stalled-filtered-subscriber-then-stop", "stalled-filtered-subscriber-closes-itself":
 		for p, d := range in.done {
 			if !d {
 				add("C11", "descendant not closed", "node %s is not done at quiescence after the root was shut down", p)
@@ -302,6 +390,9 @@ func narrow(prop, tier string) []runner.Sc {
 		{name: "refilter-racing-root-close", mode: "S2", bound: d},
 		{name: "monitor-closed-by-own-handler", mode: "S2", bound: d},
 		{name: "leaf-close-racing-publish-and-stop", mode: "S2", bound: d},
+		{name: "publish-racing-stop-with-filtered-nodes", mode: "S2", bound: d - 1},
+		{name: "idle-publisher-then-stop", mode: "S2", bound: d - 2},
+		{name: "idle-publisher-then-closed", mode: "S2", bound: d - 2},
 		{name: "stalled-typed-subscriber-then-stop", mode: "S2", bound: d - 1, bufsiz: 2},
 		{name: "stalled-filtered-subscriber-then-stop", mode: "S2", bound: d - 1, bufsiz: 2},
 		{name: "stalled-filtered-subscriber-closes-itself", mode: "S2", bound: d - 1, bufsiz: 2},
@@ -319,6 +410,12 @@ func narrow(prop, tier string) []runner.Sc {
 						run = in.runSelfClose
 					case "leaf-close-racing-publish-and-stop":
 						run = in.runLeafClose
+					case "publish-racing-stop-with-filtered-nodes":
+						run = in.runPublishStopFiltered
+					case "idle-publisher-then-stop":
+						run = func() { in.runIdlePublisher(false) }
+					case "idle-publisher-then-closed":
+						run = func() { in.runIdlePublisher(true) }
 					case "stalled-typed-subscriber-then-stop":
 						run = in.runStalledTyped
 					case "stalled-filtered-subscriber-then-stop":
